@@ -293,4 +293,53 @@ PROPS = {
                    'SystemTab.py under the bokeh double tools/fakebokeh on event sequences (singles, pairs, random depth 15). The search runs '
                    'the real viewer and checks every clause of the property after every event.',
     ),
+    'C02': dict(
+        own_files=['Lemmas/SwameeJain.v', 'Lemmas/LIl.v', 'Lemmas/LSettle.v', 'Lemmas/LC02.v', 'Props/C02.v'],
+        corr=[dict(script='corr_gen.py', n=250, n_thorough=6000,
+                   args=['Homogeneous.fluid_head_loss', 'Homogeneous.Erhg', 'Heterogeneous.vt_ruby', 'Heterogeneous.vth_RZ', 'Heterogeneous.Shr',
+                         'Heterogeneous.Srs', 'Heterogeneous.Erhg', 'Stratified.fb_Erhg', 'Stratified.vls_FBSB', 'Framework.Cvs_Erhg',
+                         'Framework.LDV', 'Framework.slip_ratio', 'Framework.Cvs_from_Cvt', 'Framework.Cvt_Erhg', 'Framework.pseudo_dlim']),
+              dict(script='corr_slurry.py', n=12, n_thorough=200, args=['--parts', 'curves,graded'])],
+        search='C02.py', budget_quick=300, budget_thorough=20000,
+        partial=['C02 fixed-bed model, LDV loops, sliding bed, homogeneous model, Srs/sqrtcx: their generated side-condition predicates (fb_Erhg_ok, '
+                 'LDV_ok, Erhg_ok ...) are regenerated with the model but not proved on E; decided on the real code by the search '
+                 '(every public call on envelope points, corners over-weighted)',
+                 'C02 delivered-concentration path in general: proved for coarse grains (d/Dp >= 0.06, where the sliding-flow weight is 0): '
+                 'Cvt < Cvs < Cvb; for finer grains Cvs <= Cvb is the unproved upper half of C05; the exact zero of the Eqn 8.12-3 denominator '
+                 'is a recorded finding',
+                 'C02 graded sand and the Slurry curve tables: compositions of the above over the pseudo-liquid; searched (every number of '
+                 'every table of random Slurry objects), not proved'],
+        level_text='Proof (regenerated model + its generated side-condition predicates): on the envelope the carrier-liquid gradient is defined and '
+                   'positive (turbulent branch, Re > 7000, logarithm argument in (0, 0.31)); terminal and hindered settling are defined and '
+                   'positive; the Richardson-Zaki exponent lies in (2.34, 4.7), hence KC > 0.58 and the hindered-settling term is defined for '
+                   'every Cvs <= 0.58; for coarse grains on the delivered-concentration path the slip ratio is the three-layer-model slip and '
+                   'Cvt < Cvs < Cvb strictly. The compositions are partial (searched).',
+        level_note='The side-condition predicates f_ok are emitted by the translator next to each function (non-zero divisors, positive log / power '
+                   'arguments, in-range table keys). Model executed bit-exactly against the real functions, including inputs on which both raise. '
+                   'Known finding: the exact zero of the Eqn 8.12-3 denominator (ZeroDivisionError), identified by its call site.',
+    ),
+    'C04': dict(
+        own_files=['Lemmas/SwameeJain.v', 'Lemmas/LIl.v', 'Lemmas/LSettle.v', 'Lemmas/LHe.v', 'Lemmas/LC01.v', 'Props/C04.v'],
+        corr=[dict(script='corr_gen.py', n=250, n_thorough=6000,
+                   args=['Homogeneous.fluid_head_loss', 'Homogeneous.Erhg', 'Heterogeneous.vt_ruby', 'Heterogeneous.vth_RZ', 'Heterogeneous.Erhg',
+                         'Heterogeneous.sqrtcx', 'Stratified.fb_Erhg', 'Framework.Cvs_Erhg', 'Framework.Cvs_Erhg_dict', 'Framework.Cvt_Erhg'])],
+        search='C04.py', budget_quick=400, budget_thorough=20000,
+        partial=['C04 homogeneous excess gradient between 0 and il: not proved (the lower bound is a thin-margin two-variable inequality in '
+                 'Rsd*Cvs and lambda); read for the homogeneous model proper (Eqn 8.7-8, no sliding-flow blend: above the onset the code blends '
+                 'toward musf = 0.415 by design and exceeds il); searched',
+                 'C04 fixed-bed excess gradient rises with line speed: not proved; searched with +1 % neighbour pairs',
+                 'C04 selected Erhg never negative: follows from Erhg_ho >= 0 (above) through the selection theorem; searched for Cvs and Cvt input',
+                 'C04 quantitative no-jump clause (1e-7 relative input change -> < 1e-3 relative output change): proved is that the selection is '
+                 '1-Lipschitz in the four model curves and that every branch threshold inside the models joins continuously; an elasticity '
+                 'bound for the four curves themselves is not proved; searched with 1e-7 pairs at random points, on thresholds and across '
+                 'every curve crossing located by bisection'],
+        level_text='Proof (regenerated model, exact reals): on the envelope the carrier-liquid gradient is positive, strictly rises with line speed '
+                   'and strictly falls with pipe diameter (Swamee-Jain: lambda*Re^2 increasing, lambda decreasing in Re and in relative roughness); '
+                   'Ruby-Zanke settling velocity strictly rises with grain size and with density; hindered settling is positive, below the free '
+                   'value and strictly falls with concentration; the heterogeneous excess gradient strictly falls with line speed for both '
+                   'settings of both switches; the selected gradient is max(min(FB,SB,He),Ho), a 1-Lipschitz selection; the sliding-flow blend '
+                   'and both sqrtcx breakpoints join without a jump.',
+        level_note='Model regenerated from the Python on every run and executed bit-exactly against the real functions. The search compares '
+                   'neighbouring inputs on the real code, including pairs straddling every crossing of two regime curves.',
+    ),
 }
